@@ -1,3 +1,479 @@
 package main
 
-func cmdCheck(args []string) int { return 2 }
+// check: the registered entry point. Verifies the cone of one property, writes evidence,
+// replay files and VIOLATION / KNOWN-FINDING lines.
+
+import (
+	"encoding/json"
+	"flag"
+	"fmt"
+	"os"
+	"path/filepath"
+	"sort"
+	"strconv"
+	"strings"
+	"time"
+
+	"golang.org/x/tools/go/ssa"
+)
+
+type knownFinding struct {
+	Property   string `json:"property"`
+	Obligation string `json:"obligation"` // "<function key>/<obligation name>"
+	What       string `json:"what"`
+	Status     string `json:"status"` // known | fixed
+	Commit     string `json:"commit,omitempty"`
+	Replay     string `json:"replay,omitempty"`
+}
+
+type oblReport struct {
+	Function   string  `json:"function"`
+	Obligation string  `json:"obligation"`
+	Kind       string  `json:"kind"`
+	Clause     string  `json:"clause,omitempty"`
+	Status     string  `json:"status"`
+	Solver     string  `json:"solver"`
+	Seconds    float64 `json:"seconds"`
+	SMTFile    string  `json:"smt_file,omitempty"`
+}
+
+func hasTag(tags []string, p string) bool {
+	for _, t := range tags {
+		if t == p {
+			return true
+		}
+	}
+	return false
+}
+
+func shortFn(k string) string { return strings.ReplaceAll(k, "github.com/lugu/qiloop/", "") }
+
+func cmdCheck(args []string) int {
+	fs := flag.NewFlagSet("check", flag.ExitOnError)
+	repo := fs.String("repo", "/repo", "")
+	verif := fs.String("verif", "/verif", "")
+	prop := fs.String("prop", "", "property id")
+	tier := fs.String("tier", "quick", "quick|thorough")
+	pkgs := fs.String("pkgs", "./...", "")
+	verbose := fs.Bool("v", false, "")
+	noReplay := fs.Bool("noreplay", false, "skip counterexample replay")
+	fs.Parse(args)
+	if *prop == "" {
+		fmt.Fprintln(os.Stderr, "check: --prop required")
+		return 2
+	}
+	if t := os.Getenv("VERIF_TIER"); t == "quick" || t == "thorough" {
+		*tier = t
+	}
+	seed, _ := strconv.Atoi(os.Getenv("VERIF_SEED"))
+	t0 := time.Now()
+	outDir := filepath.Join(*verif, "out", *prop)
+	os.RemoveAll(outDir)
+	os.MkdirAll(outDir, 0o755)
+	replayDir := filepath.Join(*verif, "replays", *prop)
+	os.RemoveAll(replayDir)
+	os.MkdirAll(replayDir, 0o755)
+	evidencePath := filepath.Join(*verif, "evidence", *prop+".json")
+	os.MkdirAll(filepath.Dir(evidencePath), 0o755)
+
+	violations := 0
+	violate := func(replay string, noInput bool) {
+		violations++
+		line := fmt.Sprintf("VIOLATION property=%s replay=%s", *prop, replay)
+		if noInput {
+			line += " no-failing-input-found"
+		}
+		fmt.Println(line)
+	}
+	writeReplay := func(name string, body map[string]interface{}) string {
+		fn := strings.NewReplacer("/", "_", "(", "", ")", "", "*", "", " ", "", ":", "-", "$", "-").Replace(name) + ".json"
+		p := filepath.Join(replayDir, fn)
+		body["property"] = *prop
+		data, _ := json.MarshalIndent(body, "", " ")
+		os.WriteFile(p, data, 0o644)
+		return p
+	}
+	engineFail := func(what, detail string) {
+		p := writeReplay("engine-error_"+what, map[string]interface{}{"status": "engine-error", "obligation": what, "detail": detail})
+		violate(p, true)
+	}
+
+	eng, err := LoadEngine(*repo, filepath.Join(*verif, "trusted"), strings.Split(*pkgs, ","))
+	if err != nil {
+		engineFail("load", err.Error())
+		writeEvidence(evidencePath, *prop, *tier, seed, levelOf(*prop), nil, nil, nil, nil, nil, time.Since(t0).Seconds(), violations, "load failed: "+err.Error(), nil)
+		return 1
+	}
+	for _, e := range eng.loadErrs {
+		engineFail("contracts", e)
+	}
+	for _, e := range eng.buildAxioms() {
+		engineFail("axioms", e)
+	}
+	loadSecs := time.Since(t0).Seconds()
+
+	// known findings
+	var known []knownFinding
+	if data, err := os.ReadFile(filepath.Join(*verif, "known_findings.json")); err == nil {
+		if err := json.Unmarshal(data, &known); err != nil {
+			engineFail("known_findings", err.Error())
+		}
+	}
+	isKnown := func(obl string) *knownFinding {
+		for i := range known {
+			if known[i].Property == *prop && known[i].Status == "known" && known[i].Obligation == obl {
+				return &known[i]
+			}
+		}
+		return nil
+	}
+
+	// cone: roots tagged with the property, closed under used /repo contracts
+	var queue []string
+	inCone := map[string]bool{}
+	for k, ct := range eng.contracts {
+		if hasTag(ct.Tags, *prop) && !ct.IsTrustedFile {
+			queue = append(queue, k)
+		}
+	}
+	sort.Strings(queue)
+	for _, k := range queue {
+		inCone[k] = true
+	}
+	if len(queue) == 0 {
+		engineFail("cone", "no contract is tagged with "+*prop)
+	}
+	var ctxs []*FnCtx
+	var allObls []*Obligation
+	var functions []string
+	var assumedContracts []string
+	trustedUsed := map[string]bool{}
+	unknownCalls := map[string]bool{}
+	for len(queue) > 0 {
+		k := queue[0]
+		queue = queue[1:]
+		ct := eng.contracts[k]
+		fn := eng.funcs[k]
+		if fn == nil {
+			p := writeReplay("missing_"+k, map[string]interface{}{"status": "missing-function", "obligation": "missing/" + shortFn(k),
+				"detail": "the contract " + k + " (" + ct.File + ") names a function that no longer exists in the tree"})
+			violate(p, true)
+			continue
+		}
+		if ct.Trusted {
+			assumedContracts = append(assumedContracts, shortFn(k)+" (contract assumed, body not verified)")
+			continue
+		}
+		functions = append(functions, shortFn(k))
+		c := eng.VerifyFunction(fn, ct)
+		ctxs = append(ctxs, c)
+		allObls = append(allObls, c.obls...)
+		var used []string
+		for u := range c.used {
+			used = append(used, u)
+		}
+		sort.Strings(used)
+		for _, u := range used {
+			uc := eng.contracts[u]
+			if uc == nil {
+				uc = eng.ifaceContracts[u]
+			}
+			if uc == nil {
+				uc = eng.functypes[u]
+			}
+			if uc != nil && uc.IsTrustedFile {
+				trustedUsed[u] = true
+				continue
+			}
+			if _, isFunc := eng.contracts[u]; isFunc && !inCone[u] {
+				inCone[u] = true
+				queue = append(queue, u)
+			}
+		}
+		for u := range c.unknown {
+			unknownCalls[shortFn(k)+" -> "+u] = true
+		}
+	}
+	// interface implementations (behavioural subtyping) for interfaces tagged with the property
+	implObls, implFns, implErrs := eng.implObligations(*prop)
+	allObls = append(allObls, implObls...)
+	functions = append(functions, implFns...)
+	// lemmas tagged with the property
+	lemObls, lemErrs := eng.lemmaObligations(*prop)
+	allObls = append(allObls, lemObls...)
+
+	timeout := 10
+	if *tier == "thorough" {
+		timeout = 60
+	}
+	discharge(eng, allObls, dischargeOpts{outDir: outDir, timeout: timeout, jobs: 16, allSolvers: *tier == "thorough", seed: seed})
+
+	// engine errors
+	for _, c := range ctxs {
+		for _, e := range c.errs {
+			engineFail(shortFn(c.fn.RelString(nil)), e)
+		}
+	}
+	for _, e := range append(implErrs, lemErrs...) {
+		engineFail("spec", e)
+	}
+
+	var reports []oblReport
+	var samples []oblReport
+	discharged := 0
+	counted := 0
+	solverSecs := 0.0
+	bySolver := map[string]int{}
+	var otherFailing []string
+	var knownHit []string
+	for _, o := range allObls {
+		solverSecs += o.Secs
+		rep := oblReport{Function: shortFn(o.Fn), Obligation: o.Name, Kind: o.Kind, Clause: trunc(o.Text, 200), Status: o.Status, Solver: o.Solver, Seconds: o.Secs, SMTFile: o.SMTFile}
+		reports = append(reports, rep)
+		mine := o.Support || len(o.Tags) == 0 || hasTag(o.Tags, *prop)
+		if !mine {
+			if !o.ok() {
+				otherFailing = append(otherFailing, shortFn(o.Fn)+"/"+o.Name+" (tags "+strings.Join(o.Tags, ",")+")")
+			}
+			continue
+		}
+		counted++
+		if o.ok() {
+			discharged++
+			bySolver[strings.Fields(o.Solver)[0]]++
+			if len(samples) < 6 && o.Kind == "ensures" {
+				samples = append(samples, rep)
+			}
+			continue
+		}
+		full := shortFn(o.Fn) + "/" + o.Name
+		if kf := isKnown(full); kf != nil {
+			fmt.Printf("KNOWN-FINDING: property=%s %s %s\n", *prop, full, kf.What)
+			knownHit = append(knownHit, full)
+			continue
+		}
+		body := map[string]interface{}{"obligation": full, "clause": o.Text, "kind": o.Kind, "solver": o.Solver, "answer": o.Status,
+			"seconds": o.Secs, "smt_file": o.SMTFile, "solver_output": trunc(o.Model, 4000)}
+		noInput := true
+		if o.Status == "sat" && !o.ExpectSat {
+			model := getModel(eng, o, outDir, timeout)
+			body["model"] = trunc(model, 20000)
+			if !*noReplay {
+				res := replayObligation(eng, o, model, *repo, outDir)
+				body["replay"] = res
+				if res != nil && res.Reproduced {
+					noInput = false
+					body["status"] = "reproduced"
+				}
+			}
+		}
+		if _, ok := body["status"]; !ok {
+			if o.Status == "sat" {
+				body["status"] = "no-failing-input-found"
+			} else if o.ExpectSat {
+				body["status"] = "vacuous"
+			} else {
+				body["status"] = "undecided"
+			}
+		}
+		p := writeReplay(full, body)
+		violate(p, noInput)
+		if *verbose {
+			fmt.Printf("  failing: %s [%s by %s] %s\n", full, o.Status, o.Solver, trunc(o.Text, 100))
+		}
+	}
+	if counted == 0 {
+		engineFail("vacuity", "the cone generated zero obligations")
+	}
+	var trusted []string
+	for u := range trustedUsed {
+		trusted = append(trusted, "assumed contract: "+u)
+	}
+	sort.Strings(trusted)
+	sort.Strings(assumedContracts)
+	for _, a := range assumedContracts {
+		trusted = append(trusted, "assumed /repo contract: "+a)
+	}
+	var unk []string
+	for u := range unknownCalls {
+		unk = append(unk, "unknown call (havoc): "+u)
+	}
+	sort.Strings(unk)
+	trusted = append(trusted, unk...)
+	for _, at := range eng.axiomTerms {
+		if !at.ax.Lemma {
+			trusted = append(trusted, "axiom: "+at.ax.Name+" ("+filepath.Base(at.ax.File)+")")
+		}
+	}
+	trusted = append(trusted, baseAssumptions...)
+	sort.Strings(functions)
+	extra := map[string]interface{}{
+		"functions_under_contract": functions, "obligations_by_backend": bySolver, "solver_seconds": solverSecs,
+		"load_seconds": loadSecs, "other_properties_failing": otherFailing, "known_findings_hit": knownHit,
+		"all_obligations": len(allObls), "engine": "govc (go/ssa naive form -> SMT-LIB; z3-new 5.1, z3 4.8.12, cvc5 1.0)",
+	}
+	bounded := runBoundedStandins(*prop, *tier, *repo, *verif, seed, violate, writeReplay)
+	if bounded != nil {
+		extra["bounded"] = bounded
+	}
+	writeEvidence(evidencePath, *prop, *tier, seed, levelOf(*prop), reports, samples, trusted, extra, functions, time.Since(t0).Seconds(), violations,
+		"", map[string]int{"obligations": counted, "discharged": discharged})
+	if *verbose || violations > 0 {
+		fmt.Printf("property %s: %d/%d obligations discharged, %d functions, %d violations, %.1fs\n", *prop, discharged, counted, len(functions), violations, time.Since(t0).Seconds())
+	}
+	if violations > 0 {
+		return 1
+	}
+	return 0
+}
+
+var baseAssumptions = []string{
+	"GOARCH=amd64: int/uint are 64 bit",
+	"integers are mathematical Int with explicit wrap-around at every arithmetic result and conversion",
+	"methods are not invoked on nil receivers",
+	"heap well-typedness: values read from fields are in range for their type and refer to allocated objects",
+	"floating point values are opaque bit patterns",
+	"monitor rule (Owicki-Gries) for lock-protected invariants where used",
+}
+
+func levelOf(prop string) string {
+	switch prop {
+	case "C10", "C11", "C12":
+		return "other"
+	}
+	return "proof"
+}
+
+func writeEvidence(path, prop, tier string, seed int, level string, reports []oblReport, samples []oblReport, trusted []string, extra map[string]interface{}, functions []string, wall float64, violations int, note string, counts map[string]int) {
+	cov := map[string]interface{}{}
+	for k, v := range extra {
+		cov[k] = v
+	}
+	if counts != nil {
+		cov["obligations"] = counts["obligations"]
+		cov["discharged"] = counts["discharged"]
+	} else {
+		cov["obligations"] = 0
+		cov["discharged"] = 0
+	}
+	cov["checker_cmd"] = fmt.Sprintf("/verif/check %s --tier %s", prop, tier)
+	if trusted == nil {
+		trusted = []string{}
+	}
+	cov["trusted_base"] = trusted
+	var ss []interface{}
+	for _, s := range samples {
+		ss = append(ss, s)
+	}
+	if len(ss) == 0 {
+		for i, r := range reports {
+			if i >= 3 {
+				break
+			}
+			ss = append(ss, r)
+		}
+	}
+	if ss == nil {
+		ss = []interface{}{"no obligations generated"}
+	}
+	cov["samples"] = ss
+	cov["explanation"] = "Obligations are generated from the SSA of the functions under contract in /repo's working tree (contracts in zz_contracts_verif.go files, build tag verif) and discharged by SMT solvers; 'discharged' counts obligations answered unsat (covers: not refuted). " + note
+	if level == "other" {
+		cov["evaluations"] = cov["obligations"]
+	}
+	ev := map[string]interface{}{
+		"property_id": prop, "tier": tier, "seed": seed, "level": level, "coverage": cov,
+		"assumptions": trusted, "wall_s": wall, "violations": violations,
+	}
+	data, _ := json.MarshalIndent(ev, "", " ")
+	os.WriteFile(path, data, 0o644)
+	// full per-obligation table next to the SMT files (not part of the committed evidence)
+	if reports != nil {
+		d2, _ := json.MarshalIndent(reports, "", " ")
+		os.WriteFile(filepath.Join(filepath.Dir(filepath.Dir(path)), "out", prop, "obligations.json"), d2, 0o644)
+	}
+}
+
+// lemmaObligations: `lemma` declarations tagged with the property become stand-alone obligations.
+func (e *Engine) lemmaObligations(prop string) ([]*Obligation, []string) {
+	var out []*Obligation
+	var errs []string
+	for _, at := range e.axiomTerms {
+		if !at.ax.Lemma || !(hasTag(at.ax.Tags, prop)) {
+			continue
+		}
+		c := e.newCtx(nil, nil)
+		c.facts = at.facts
+		o := &Obligation{NFacts: len(at.facts), Name: "lemma/" + at.ax.Name, Fn: "lemma", Kind: "lemma", Tags: at.ax.Tags, Text: at.ax.E.String(), ctx: c, PC: True, Goal: at.t, Support: false, noAxiom: at.ax.Name}
+		out = append(out, o)
+	}
+	return out, errs
+}
+
+// implObligations verifies every /repo implementer of an interface contract tagged with prop.
+func (e *Engine) implObligations(prop string) ([]*Obligation, []string, []string) {
+	var out []*Obligation
+	var fns, errs []string
+	var keys []string
+	for k := range e.ifaceContracts {
+		keys = append(keys, k)
+	}
+	sort.Strings(keys)
+	for _, k := range keys {
+		ict := e.ifaceContracts[k]
+		if ict.IsTrustedFile || !hasTag(ict.Tags, prop) {
+			continue
+		}
+		impls := e.implementers(ict)
+		for _, fn := range impls {
+			// a function-level contract may refine the interface contract with loop invariants
+			ct := *ict
+			ct.Kind = "func"
+			ct.Loops = map[int]*LoopSpec{}
+			ct.Asserts = map[string][]*Clause{}
+			if own := e.contracts[fn.RelString(nil)]; own != nil {
+				ct.Loops = own.Loops
+				ct.Asserts = own.Asserts
+				ct.Requires = append(append([]*Clause(nil), ict.Requires...), own.Requires...)
+				ct.Ensures = append(append([]*Clause(nil), ict.Ensures...), own.Ensures...)
+				ct.Modifies = append(append([]*Expr(nil), ict.Modifies...), own.Modifies...)
+				for k, v := range own.Opts {
+					if ct.Opts == nil {
+						ct.Opts = map[string]string{}
+					}
+					ct.Opts[k] = v
+				}
+			}
+			c := e.VerifyFunctionAs(fn, &ct, e.contractPkg[ict])
+			for _, o := range c.obls {
+				o.Name = "impl:" + lastName(k) + "/" + o.Name
+			}
+			out = append(out, c.obls...)
+			fns = append(fns, shortFn(fn.RelString(nil))+" (implements "+shortFn(k)+")")
+			for _, er := range c.errs {
+				errs = append(errs, shortFn(fn.RelString(nil))+": "+er)
+			}
+		}
+	}
+	return out, fns, errs
+}
+
+func (e *Engine) implementers(ict *Contract) []*ssa.Function {
+	// key: "<pkgpath>.<Iface>.<Method>"
+	i := strings.LastIndex(ict.Key, ".")
+	ifaceName, method := ict.Key[:i], ict.Key[i+1:]
+	j := strings.LastIndex(ifaceName, ".")
+	pkg := e.pkgByPath[ifaceName[:j]]
+	if pkg == nil {
+		return nil
+	}
+	obj := pkg.Scope().Lookup(ifaceName[j+1:])
+	if obj == nil {
+		return nil
+	}
+	it, ok := obj.Type().Underlying().(*typesInterface)
+	if !ok {
+		return nil
+	}
+	return e.findImplementers(it, method)
+}
